@@ -882,6 +882,30 @@ let handle (r : reader) : unit =
           | Some comps ->
               out_s "OK"; out_int (List.length comps);
               List.iter (fun c -> out_int (List.length c); List.iter (fun (a, b) -> out_n a; out_n b) c) comps))
+  | "FILLF" ->
+      (* FILLF w d ranges <n | "S" num den>  -> the MOC fill_holes(Some n) / fill_holes_smaller_than(num/den) returns,
+         as ranges: the MOC plus the chosen components of the flood fill of its complement *)
+      let w = next_n r in
+      let d = next_int r in
+      let m = next_ranges r in
+      let mode = next r in
+      let rec nat_of_int i = if i <= 0 then O else S (nat_of_int (i - 1)) in
+      let nb = nb8 (nat_of_int d) in
+      let dn = n_of_int d in
+      let (_, cmp) = moc_not Hpx w dn m in
+      (match moc_cells_o Hpx w dn cmp with
+       | None -> out_s "ERR cells-fuel"
+       | Some cells ->
+         let res =
+           if mode = "S" then
+             let num = next_n r in let den = next_n r in
+             ff_fill_smaller (max_depth Hpx w) dn (ext_of nb dn) cells num den
+           else ff_fill (max_depth Hpx w) dn (ext_of nb dn) cells (nat_of_int (int_of_string mode)) in
+         (match res with
+          | None -> out_s "ERR fuel"
+          | Some sel ->
+              let added = List.concat_map (fun comp -> List.map (fun c -> cell_range Hpx w (fst c) (snd c)) comp) sel in
+              out_s "OK"; out_ranges (canon_of (m @ added))))
   | "FILL" ->
       let w = next_n r in
       let d = next_int r in
